@@ -12,7 +12,11 @@ func init() {
 	overlayBuilt = true
 	sut.RegisterOp("crash_arm", func(r *sut.Req) (interface{}, error) {
 		verifcrash.Record(r.Ints["record"] != 0)
-		verifcrash.Arm(r.Ints["at"])
+		if r.Name != "" {
+			verifcrash.ArmNamed(r.Name, r.Ints["occ"])
+		} else {
+			verifcrash.Arm(r.Ints["at"])
+		}
 		return nil, nil
 	})
 	sut.RegisterOp("crash_count", func(r *sut.Req) (interface{}, error) {
